@@ -80,8 +80,9 @@ func (s *sim) nextSync(rng *simcore.RNG) simcore.Op {
 	}
 	gi := s.gstInfo
 	done := true
+	unr := s.unreachable()
 	for _, n := range s.nodes {
-		if n.bstore.Height() < gi.height {
+		if n.bstore.Height() < gi.height && !unr[n.idx] {
 			done = false
 		}
 	}
@@ -119,6 +120,14 @@ func (s *sim) nextSync(rng *simcore.RNG) simcore.Op {
 		}
 		return simcore.Op{"a": "timeout", "node": best.idx, "dt": int(dt / time.Millisecond)}
 	}
+	if s.cfg.Bool("real_ticker") {
+		// the shipped tickers run on the fake clock: let it advance; the oracle declares a
+		// stall only after a long simulated time without any change of any node's H/R/S
+		if s.stalledFor() > 150*time.Second {
+			return nil
+		}
+		return simcore.Op{"a": "sleep", "ms": 50, "idle": true}
+	}
 	s.idleNext++
 	if s.idleNext > 6 {
 		return nil // nothing will ever happen again (the oracle has judged the stall)
@@ -145,11 +154,12 @@ func (s *sim) checkTermination(idle bool) {
 		return
 	}
 	all := true
+	unr := s.unreachable()
 	for _, n := range s.nodes {
 		if !n.isAlive() {
 			return
 		}
-		if n.bstore.Height() < gi.height {
+		if n.bstore.Height() < gi.height && !unr[n.idx] {
 			all = false
 		}
 	}
@@ -172,7 +182,7 @@ func (s *sim) checkTermination(idle bool) {
 			}
 		}
 		for _, n := range s.nodes {
-			if string(n.addr) == string(v.Address) && s.refused[n.idx][gi.height] {
+			if string(n.addr) == string(v.Address) && (s.refused[n.idx][gi.height] || unr[n.idx]) {
 				faulty += v.VotingPower
 				nf++
 			}
@@ -211,6 +221,17 @@ func (s *sim) checkTermination(idle bool) {
 			s.env.Fail(prop, "no-termination"+sigSuffix, "node %d entered round %d of height %d after the synchrony point (rounds at GST: max %d min %d, %d Byzantine validators, bound %d) and height %d is still undecided at some correct node", n.idx, rs.Round, gi.height, gi.rmax, gi.rmin, len(s.byz), gi.deadline, gi.height)
 		}
 	}
+	if s.cfg.Bool("real_ticker") {
+		if s.stalledFor() > 120*time.Second {
+			desc := ""
+			for _, n := range s.nodes {
+				rs := n.cs.GetRoundState()
+				desc += fmt.Sprintf(" n%d:%d/%d/%d(store %d)", n.idx, rs.Height, rs.Round, rs.Step, n.bstore.Height())
+			}
+			s.env.Fail(prop, "stall"+sigSuffix, "after the synchrony point no correct node changed height/round/step for 120 simulated seconds, but height %d is undecided at some correct node:%s", gi.height, desc)
+		}
+		return
+	}
 	if idle {
 		// verify idleness here: a replayed (reduced) trace must not be trusted on it
 		if len(s.deliverables()) > 0 {
@@ -239,7 +260,12 @@ func (s *sim) checkTermination(idle bool) {
 				}
 				desc += fmt.Sprintf(" refused=%v)", s.refused[n.idx][rs.Height])
 			}
-			s.env.Fail(prop, "stall"+sigSuffix, "after the synchrony point nothing is deliverable and no timeout is pending, but height %d is undecided at some correct node:%s", gi.height, desc)
+			s.deliverables()
+			sk := s.lastSkipped
+			if len(sk) > 6 {
+				sk = sk[:6]
+			}
+			s.env.Fail(prop, "stall"+sigSuffix, "after the synchrony point nothing is deliverable and no timeout is pending, but height %d is undecided at some correct node:%s (offered before without effect: %d items, e.g. %v)", gi.height, desc, len(s.lastSkipped), sk)
 		}
 	} else {
 		s.idleSteps = 0
@@ -255,4 +281,47 @@ func (s *sim) noteRefusal(n *simNode, h int64) {
 		s.refused[n.idx] = map[int64]bool{}
 	}
 	s.refused[n.idx][h] = true
+}
+
+// stalledFor returns how long (simulated) no live node has changed its height/round/step.
+func (s *sim) stalledFor() time.Duration {
+	sig := ""
+	for _, n := range s.nodes {
+		if n.isAlive() {
+			rs := n.cs.GetRoundState()
+			sig += fmt.Sprintf("%d/%d/%d;", rs.Height, rs.Round, rs.Step)
+		}
+	}
+	if sig != s.lastHRS || s.lastHRSAt.IsZero() {
+		s.lastHRS, s.lastHRSAt = sig, time.Now()
+	}
+	return time.Since(s.lastHRSAt)
+}
+
+// unreachable reports nodes that have fallen behind the base of every other node's block
+// store (the application asked to prune): consensus gossip cannot serve them any more (a
+// real node would block-sync or state-sync), so they are not live participants.
+func (s *sim) unreachable() map[int]bool {
+	out := map[int]bool{}
+	for _, n := range s.nodes {
+		if !n.isAlive() {
+			continue
+		}
+		h := n.cs.GetRoundState().Height
+		served := false
+		others := 0
+		for _, m := range s.nodes {
+			if m == n || !m.isAlive() {
+				continue
+			}
+			others++
+			if m.cs.GetRoundState().Height <= h || m.bstore.Base() <= h {
+				served = true
+			}
+		}
+		if others > 0 && !served {
+			out[n.idx] = true
+		}
+	}
+	return out
 }
